@@ -316,6 +316,7 @@ ADDENDA = {
     "bucket answers x formats x sizes x on-disk states, every crash point of a chunked download. L2 also starts from truncated / too long documents and truncated archives.",
     "C15": "Layer 4 (histories): a local repository reused for two runs, and a managed clone reused while upstream changes its branch set between the runs. Histories whose second run is for an unknown version.",
     "C16": "Outcome alphabet includes dict results without a success flag and None.",
+    "C17": "Outcomes also: a connection aborted by the peer (error carrying its cause; a separate layer with one transport retry of the client), bulk responses rejecting a varying number of documents.",
     "C18": "L0 fires the trace callbacks of the real client with aiohttp's own parameter objects (three exception kinds). L4: consecutive composite invocations of one client through the real AsyncExecutor.",
     "C19": "The detailed bulk path is judged separately from the fast path; keys that merely end in 'sort' after the last hit's sort. Bulk responses of 40 and 1500 items; two composite-aggregation operations concurrently on one Query instance.",
     "C20": "The report-file layer goes through the public ComparisonReporter.report().",
